@@ -408,10 +408,11 @@ KNOWN_CASES = [
 ]
 
 
-def classify(case, diff):
+def classify(case, diff, rec=None):
     n, f, va, vb = diff
     op = case['ops'][n]
-    if op['mode'] == 'a' and op['T'] == 0 and f == 'out' and va == 'TIMEOUT':
+    timed_out = (va == 'TIMEOUT') or (rec is not None and rec.get('after') == 'TIMEOUT')
+    if op['mode'] == 'a' and op['T'] == 0 and f == 'out' and timed_out:
         return KNOWN_T0
     return 'async/parity/%s' % f
 
@@ -443,7 +444,7 @@ def run(ctx):
         sigs.add((c['kind'], tuple((op['mode'], r['out'].split()[0], min(r['nev'], 3), bool(op.get('gap'))) for op, r in zip(c['ops'], a['recs']))))
         lines.append(model_line(c, a))
         if d is not None:
-            sig = classify(c, d)
+            sig = classify(c, d, a['recs'][d[0]] if d[0] < len(a['recs']) else None)
             msg = 'call %d (%s, timeout=%r): %s awaited %r, blocking twin %r' % (d[0], 'awaited' if c['ops'][d[0]]['mode'] == 'a' else 'blocking', c['ops'][d[0]]['T'], d[1], d[2], d[3])
             if sig == KNOWN_T0:
                 common.report(ctx, sig, msg, dict(case=c))
